@@ -726,6 +726,10 @@ ALL_KINDS = ['json', 'int', 'int8', 'int16', 'int32', 'int64', 'uint', 'uint8', 
 def c14(ctx, api):
     acc = Acc()
     thorough = ctx['tier'] == 'thorough'
+    tv = api['run_trace_validation'](ctx, 'typed-carrier-traces', 20000 if thorough else 4000, ctx['seed'] + 114, corpus=False, mode='typedcarrier')
+    acc.add_traces('trace validation, type-directed grower on documents whose numbers are held in randomly chosen native Go representations '
+                   '(float64 / float32 where exact, int, int8..int64, uint..uint32, json.Number): the specification does not know the carrier, so '
+                   'every recorded outcome must lie in the same admissible set', tv)
     nvals = 9 if thorough else 7
     kinds = '{' + ', '.join('"%s"' % k for k in ALL_KINDS) + '}'
     kb = kinds[:-1] + ', "jsonexp", "jsondot"}' if thorough else '{"json", "int", "uint8", "int64", "float32", "float64", "decimal", "jsonexp", "jsondot"}'
